@@ -47,8 +47,6 @@ ASSUMPTIONS = [
     "extra blocks returned beyond the request are not judged",
 ]
 
-import os
-EXPLORE_SKIP_TWO = bool(os.environ.get("C09_SKIP_TWO"))
 LETTERS = ["a", "b", "m", "x", "z"]
 COEFS = [-2.0, -1.0, -0.5, 0.5, 1.0, 2.0]
 
@@ -98,14 +96,14 @@ def _inner(children, lo=2, hi=3):
 def compositions(draw):
     level2 = st.one_of(_leaf(), _leaf(), _inner(_leaf(), 2, 2))
     level1 = st.one_of(_leaf(), _leaf(), _leaf(), _inner(level2, 2, 3))
-    top = draw(st.sampled_from(["tree", "tree", "tree", "mda", "mda_lin", "additive"]))
+    top = draw(st.sampled_from(["tree", "tree", "tree", "tree", "mda", "mda_lin", "additive", "additive"]))
     if top == "additive":
         root = {"k": "parallel", "c": draw(st.lists(st.one_of(_leaf(), _leaf(), _inner(_leaf(), 2, 2).map(lambda d: {**d, "k": "chain"})),
                                                    min_size=2, max_size=3)), "threads": 1}
     else:
         root = {"k": draw(st.sampled_from(["chain", "chain", "chain", "parallel"])), "c": draw(st.lists(level1, min_size=2, max_size=4)),
                 "threads": draw(st.sampled_from([1, 1, 2]))}
-    n_ext = draw(st.integers(1, 3))
+    n_ext = draw(st.sampled_from([1, 1, 2])) if top == "additive" else draw(st.integers(1, 3))
     ops = draw(st.lists(st.one_of(
         st.fixed_dictionaries({"op": st.just("lin"), "ins": st.lists(st.integers(0, 5), min_size=1, max_size=3),
                                "outs": st.lists(st.integers(0, 7), min_size=1, max_size=3), "pt": st.integers(0, 1)}),
@@ -354,7 +352,7 @@ def case_chain_rule(p, ctx):
     built = Built(p)
     if built.top == "additive":
         add_sum_output(built)
-    if built.top == "additive" and any(leaf["jac"] == "operator" and built.sum_name in leaf["outs"] for leaf in built.leaves) \
+    if built.top == "additive" and any(leaf["jac"] == "operator" for leaf in built.leaves) \
             and ctx.known("additive_with_jacobian_operator"):
         return  # C09-F2: the builtin sum() of additive_chain.py cannot add JacobianOperator blocks
     writers: dict[str, int] = {}
@@ -362,14 +360,18 @@ def case_chain_rule(p, ctx):
         for o in leaf["outs"]:
             writers[o] = writers.get(o, 0) + 1
     two_producers = any(v >= 2 for k, v in writers.items() if k != built.sum_name)
-    if two_producers and EXPLORE_SKIP_TWO:
-        return
-    inplace_nonlinear = any(
-        len(t) == 3 and any(leaf["ins"][pos] in leaf["outs"] for pos, _ in t[1:])
-        for leaf in built.leaves for o in leaf["outs"] for comp in leaf["terms"][o] for t in comp
+    # a leaf writes, without reading it, a name that is also written by another leaf or read from outside by the process
+    reads0: list[str] = []
+    read_before_write({"k": "chain", "c": built.leaves} if built.top in ("mda", "mda_lin") else built.tree, set(), reads0)
+    redefined = any(
+        o not in leaf["ins"] and o != built.sum_name and (writers[o] >= 2 or o in reads0)
+        for leaf in built.leaves for o in leaf["outs"]
     )
-    if inplace_nonlinear and (EXPLORE_SKIP_TWO or ctx.known("inplace_variable_in_quadratic_term")):
-        return
+    if redefined and ctx.known("variable_redefined_without_being_read"):
+        return  # C09-F5
+    if built.top == "tree" and stale_point_member(built.tree, set()) and \
+            ctx.known("chain_member_reads_a_variable_it_overwrites_nonlinearly"):
+        return  # MDOChain linearises such a member at the overwritten value
     process = build_process(built)
     residual_name = getattr(process, "NORMALIZED_RESIDUAL_NORM", None)
     in_names = sorted(process.io.input_grammar)
@@ -416,11 +418,21 @@ def case_chain_rule(p, ctx):
             process.add_differentiated_outputs(sorted(set(new_out)))
             d_in = sorted(set(d_in) | set(new_in))
             d_out = sorted(set(d_out) | set(new_out))
-            if built.top == "additive" and built.sum_name not in d_out and ctx.known("additive_request_without_summed_output"):
-                return  # C09-F1: the linearize call below raises KeyError
+            if built.top == "additive" and ctx.known("additive_request_without_summed_output", count=False):
+                member_inputs = []
+                for child in built.tree["c"]:
+                    reads_c: list[str] = []
+                    read_before_write(child, set(), reads_c)
+                    member_inputs.append(set(reads_c))
+                if built.sum_name not in d_out or any(not (m & set(d_in)) for m in member_inputs):
+                    ctx.known("additive_request_without_summed_output")
+                    return  # C09-F1: the linearize call below raises KeyError / AssertionError
             if built.top == "mda" and not coupling_on_a_path(built, d_in, d_out) and \
-                    (EXPLORE_SKIP_TWO or ctx.known("mda_request_without_coupling_on_a_path")):
+                    ctx.known("mda_request_without_coupling_on_a_path"):
                 return  # the coupled-derivative assembly of BaseMDA raises IndexError on an empty coupling set
+            if built.top == "mda" and output_without_requested_ancestor(built, d_in, d_out) and \
+                    ctx.known("mda_requested_output_independent_of_requested_inputs"):
+                return  # C09-F6: KeyError in the assembly instead of a zero block
             jac = process.linearize(data)
             pairs = [(o, u) for o in d_out for u in d_in]
             out = process.io.data
@@ -459,6 +471,8 @@ def case_chain_rule(p, ctx):
         ctx.cls("diamond")
     if built.overwrites:
         ctx.cls("overwritten_variable")
+    if two_producers:
+        ctx.cls("produced_variable_updated_in_place")
     if any(name in in_names for name in out_names):
         ctx.cls("input_overwritten_(input_is_output)")
     if zero_pairs:
@@ -481,6 +495,36 @@ def case_chain_rule(p, ctx):
     ctx.sample({"oracle": "chain_rule", "case": p})
 
 
+def has_quadratic(node, var=None) -> bool:
+    if node["k"] == "leaf":
+        return any(len(t) == 3 and (var is None or any(node["ins"][pos] == var for pos, _ in t[1:]))
+                   for o in node["outs"] for comp in node["terms"][o] for t in comp)
+    return any(has_quadratic(c, var) for c in node["c"])
+
+
+def stale_point_member(node, written: set[str]) -> bool:
+    """Does some MDOChain hold a member that reads a variable it also writes, with derivatives depending on its value.
+
+    Leaf member: the variable occurs in one of its degree-2 terms.  MDOParallelChain member: it re-executes its children
+    from its own (overwritten) data, so any degree-2 term below it counts.  Sub-chains are judged through their own members.
+    """
+    if node["k"] == "leaf":
+        return False
+    if node["k"] == "parallel":
+        return any(stale_point_member(c, written) for c in node["c"])
+    for c in node["c"]:
+        reads: list[str] = []
+        read_before_write(c, set(), reads)
+        both = set(reads) & set(written_names(c))
+        if c["k"] == "leaf" and any(has_quadratic(c, v) for v in both):
+            return True
+        if c["k"] == "parallel" and both and has_quadratic(c):
+            return True
+        if stale_point_member(c, written):
+            return True
+    return False
+
+
 def coupling_on_a_path(built: Built, d_in, d_out) -> bool:
     """Is there a discipline-to-discipline edge between a discipline reached from a requested input and one reaching a requested output."""
     from vlib.gen.graphs import closure
@@ -494,6 +538,27 @@ def coupling_on_a_path(built: Built, d_in, d_out) -> bool:
     from_in = [any(i == s or reach[s][i] for s in src) for i in range(n)]
     to_out = [any(j == t or reach[j][t] for t in dst) for j in range(n)]
     return any(adj[i][j] and from_in[i] and to_out[j] for i in range(n) for j in range(n))
+
+
+def output_without_requested_ancestor(built: Built, d_in, d_out) -> bool:
+    """Does the request hold an output (resp. input) whose discipline(s) are connected to no requested input (resp. output)."""
+    from vlib.gen.graphs import closure
+
+    leaves = built.leaves
+    n = len(leaves)
+    adj = [[i != j and bool(set(leaves[i]["outs"]) & set(leaves[j]["ins"])) for j in range(n)] for i in range(n)]
+    reach = closure(n, adj)
+    src = [i for i in range(n) if set(leaves[i]["ins"]) & set(d_in)]
+    dst = [t for t in range(n) if set(leaves[t]["outs"]) & set(d_out)]
+    for t in dst:
+        if not any(t == s or reach[s][t] for s in src):
+            return True
+    # ... or some requested input is read only by disciplines reaching no producer of a requested output
+    for u in d_in:
+        readers = [i for i in range(n) if u in leaves[i]["ins"]]
+        if not any(i == t or reach[i][t] for i in readers for t in dst):
+            return True
+    return False
 
 
 def has_kind(node, kind) -> bool:
@@ -510,4 +575,4 @@ ORACLES = {"chain_rule": case_chain_rule}
 
 
 def run(ctx):
-    ctx.drive("chain_rule", compositions(), case_chain_rule, quick=500, thorough=4000)
+    ctx.drive("chain_rule", compositions(), case_chain_rule, quick=700, thorough=4000)
